@@ -344,8 +344,10 @@ def _ill_conditioned(eq: Any, sub: dict[Any, Any], qsub: dict[Any, Any], sc: Any
     import sympy
     try:
         syms = list(sub.keys())
-        expr = (eq.lhs - eq.rhs).xreplace(qsub)
-        f = sympy.lambdify(syms, expr, modules="mpmath")
+        # library symbols print under their display names: lambdify needs plain dummies
+        dummies = {k: sympy.Dummy(f"v{i}") for i, k in enumerate(syms)}
+        expr = (eq.lhs - eq.rhs).xreplace(qsub).xreplace(dummies)
+        f = sympy.lambdify([dummies[k] for k in syms], expr, modules="mpmath")
 
         def at(dps: int) -> Any:
             with mpmath.workdps(dps):
